@@ -110,6 +110,7 @@ package node
 //@   ensures[K1_inv]   bck(result, srcsel) == bytecode.AddrInv ==> !isExpr(self) && (fl.Data().Discard || fl.Data().Returning || fl.Data().InFunc)
 //@   ensures[K1_namer] (dyntype(self) == typeid[Name]() ==> bck(result, srcsel) == bytecode.AddrGbl) && (dyntype(self) == typeid[Local]() ==> bck(result, srcsel) == bytecode.AddrLcl)
 //@       && (dyntype(self) == typeid[Closure]() ==> bck(result, srcsel) == bytecode.AddrCls)
+//@   ensures[K1_namer_no_code] isNamer(self) ==> len(*cr.CS) == old(len(*cr.CS)) && mapkept(*cr.Dbg)   // a variable reference is an operand, never an instruction (Call relies on it for the debug-info key)
 //@   ensures[K1_tmp]   bck(result, srcsel) == bytecode.AddrTmp ==> !fl.Data().ForbidTemp && (fl.Data().OpDepth > 0 || fl.Data().AcceptTemp || fl.Data().Discard)
 //
 //@ func (Int).byteCode [C05,C12] implements ByteCoder.byteCode
@@ -227,7 +228,9 @@ package node
 //
 //@ func (Function).byteCode [C05,C12] implements ByteCoder.byteCode
 //@   assumes[unfold] wfAST(f.Body)
-//@ func (Call).byteCode [C05,C12] implements ByteCoder.byteCode
+//@ func (Call).byteCode [C05,C12,C19] implements ByteCoder.byteCode
+//@   ensures[call_site_recorded;C19] len(*cr.CS) >= 1 && bcop((*cr.CS)[len(*cr.CS)-1]) == bytecode.CALL && bca((*cr.CS)[len(*cr.CS)-1], 1) == len(c.Arguments.Elems)
+//@       && mapdom(*cr.Dbg, len(*cr.CS)-1) && (*cr.Dbg)[len(*cr.CS)-1].ArgCnt == len(c.Arguments.Elems)   // C19: the report finds the callee's name and argument count under the return address the VM saves (the address of the CALL)
 //@   assumes[unfold] isNamer(c.Name) && wfAST(c.Name) && (forall k :: 0 <= k && k < len(c.Arguments.Elems) ==> exprOK(c.Arguments.Elems[k]))
 //@   loop 0 invariant[args] -1 <= rangeindex && emitInv(cr)
 //@ pred isIntOne(n Type) bool := dyntype(n) == typeid[Int]() && n.(Int) == 1
